@@ -1,13 +1,7 @@
 #!/usr/bin/env python3
 """Regenerates MANIFEST.json from the table below (single source of truth)."""
 import json
-CLAIMED = {
- "C12": dict(
-  text="Static necessary conditions of the property decided on every path of the current source (closed-signal case in every blocking hub select, non-nil close reason stored before the signal, every owned hub closed from the Close the user holds, inner swarm closed, no dead stop signal, idempotent close). Timing ('promptly') and 'no callback after Close returned' are schedule properties and are not decided.",
-  note="Trusted: go/types + go/ssa (x/tools v0.29.0), Go channel and sync.Once semantics, CHA call graph as over-approximation.",
-  technique="static analysis: SSA select-shape enumeration, CFG edge-cut guards, non-nil must-dataflow, call-graph reachability",
-  ref="DESIGN.md §4 C12"),
-}
+CLAIMED = json.load(open("/verif/claims.json"))
 NA = {
  "C19": "numeric order of XOR distances over runtime key sets; no clause is visible in the shape of the code, and a comparator-orientation lint would report 'holds' on a tree where the property is false (DESIGN §4 C19)",
 }
